@@ -73,3 +73,9 @@ def run(res):
     st = replay.run_paths(g, lambda: ShorthandsAdapter(desper, n), replay.edge_paths(g))
     res.absorb(st, 'c19_prototype:every-combination', g)
     on_update_check(res, desper)
+    # OnUpdateProcessor as a state machine: listeners come and go, a listener raises in one frame, later frames relay again
+    from ..adapters.onupdate import OnUpdateAdapter
+    r, g = res.model_check('OnUpdate', 'c19_onupdate', {'L': '{"l1", "l2", "l3"}' if th else '{"l1", "l2"}', 'Dts': '{0, 1, 3}' if th else '{0, 2}'},
+                           invariants=['OnlyThisDt'], properties=['EveryFrameRelays'], dump=True)
+    st = replay.run_paths(g, lambda: OnUpdateAdapter(desper), replay.edge_paths(g))
+    res.absorb(st, 'c19_onupdate:every-edge', g)
